@@ -3,6 +3,7 @@ from __future__ import annotations
 
 from sa.core import pool_repo as core_pool_repo, pmap as core_pmap  # noqa: E402
 
+import ast
 import itertools
 
 from sa.core import AnalysisError
@@ -88,3 +89,56 @@ def r01o(chk, rid='R01.o', thorough=False):
     chk.ob(rid, UNKNOWN, 'CSSUnknownRule._setCssText', f'no token sequence behind an unknown at-keyword raises ({cases} sequences)', not bad,
            '; '.join(f'`{t}`: {w}' for t, w in bad[:3]) + f' ({len(bad)} sequences): the exception leaves parseString')
     chk.ob(rid, UNKNOWN, 'CSSUnknownRule._setCssText', 'an accepted unknown rule is balanced', not acc, '; '.join(f'`{t}`: {w}' for t, w in acc[:3]) + f' ({len(acc)} sequences)')
+
+
+def r01p(chk, rid='R01.p'):
+    chk.rule(rid, 'stored tokens survive the hand-over to the next parser, decided by evaluation: the toStore function that Prod builds from a key '
+                  '(nested in Prod.__init__) is evaluated on its syntax tree for one, two and three stored tokens, and Base._tokenize2 is evaluated on '
+                  'whatever it leaves in the store (a bare token, a list), on a generator and on nothing: iterating the result yields exactly the stored '
+                  'tokens, each a (type, value, line, col) tuple - a one-token body (`@top-left { x }`) must not be taken apart into its four fields')
+    from sa.absint import Evaluator, Raised, Record
+
+    PP = 'cssutils/prodparser.py'
+    UT = 'cssutils/util.py'
+    pm = chk.repo.mod(PP)
+    um = chk.repo.mod(UT)
+    mk = next((n for n in ast.walk(pm.tree) if isinstance(n, ast.FunctionDef) and n.name == 'makeToStore'), None)
+    inner = mk and next((n for n in mk.body if isinstance(n, ast.FunctionDef)), None)
+    if inner is None:
+        raise AnalysisError('the toStore factory of Prod (makeToStore with a nested function) was not found')
+    keyname = mk.args.args[0].arg
+    tok2 = um.get('Base._tokenize2')
+    toks = [('IDENT', 'x', 1, 9), ('S', ' ', 1, 10), ('CHAR', ';', 1, 11)]
+
+    def tokenize2(arg):
+        tk = Record(tokenize=lambda text, fullsheet=False: iter([('IDENT', text, 1, 1)]))
+        me = Record(**{'_Base__tokenizer2': tk, '__tokenizer2': tk})
+        r = Evaluator(tok2, module=um, cls='Base').run(self=me, textortokens=arg)
+        if isinstance(r, Raised):
+            return r
+        if r is None:
+            return []
+        try:
+            return list(r)
+        except TypeError:
+            return Raised(TypeError('result is not iterable'))
+
+    for k in (1, 2, 3):
+        store = {}
+        for t in toks[:k]:
+            r = Evaluator(inner, intrinsics={keyname: 'styletokens'}, module=pm).run(store=store, item=t)
+            if isinstance(r, Raised):
+                raise AnalysisError(f'toStore raised {r!r}')
+        stored = store.get('styletokens')
+        got = tokenize2(stored)
+        chk.ob(rid, UT, 'Base._tokenize2', f'{k} stored token(s) ({type(stored).__name__} in the store) come back as {k} token(s)', got == toks[:k],
+               f'stored {stored!r}, the next parser reads {got!r}: a page-margin box with a one-token body makes parseString raise')
+    got = tokenize2(t for t in toks)
+    chk.ob(rid, UT, 'Base._tokenize2', 'a token generator is passed through', got == toks, f'{got!r}')
+    got = tokenize2(list(toks))
+    chk.ob(rid, UT, 'Base._tokenize2', 'a token list is passed through', got == toks, f'{got!r}')
+    got = tokenize2('abc')
+    chk.ob(rid, UT, 'Base._tokenize2', 'text goes to the tokenizer', got == [('IDENT', 'abc', 1, 1)], f'{got!r}')
+    for empty in (None, '', []):
+        got = tokenize2(empty)
+        chk.ob(rid, UT, 'Base._tokenize2', f'nothing ({empty!r}) yields no tokens', got == [], f'{got!r}')
